@@ -64,8 +64,30 @@ def _hash(doc):
     return len(s)
 
 
+def _foreign_twin(container, tag):
+    """a container with as many (distinct) records as `container`, all in namespaces it does not know"""
+    from prov.identifier import Namespace, QualifiedName
+    from prov.model import ProvBundle
+    other = ProvDocument() if container.is_document() else ProvBundle(identifier=container.identifier)
+    n = len(set(container.get_records()))
+    ns, dflt = Namespace("zz7" + tag, "http://zz7.example/%s/" % tag), Namespace("", "http://zz7.example/default/")
+    for i in range(n):
+        other.entity(QualifiedName(ns if i % 2 == 0 else dflt, "f%d" % i))
+    return other
+
+
 def _eq(doc):
-    return (doc == doc, doc != doc, all(b == b for b in doc.bundles))
+    res = [doc == doc, doc != doc, all(b == b for b in doc.bundles)]
+    # compared as the left and as the right operand with different content of the same size (documents with the same
+    # bundle identifiers, and every bundle on its own)
+    other = _foreign_twin(doc, "d")
+    for b in doc.bundles:
+        other.add_bundle(_foreign_twin(b, "b"))
+    res += [doc == other, other == doc, doc != other, other != doc]
+    for b in doc.bundles:
+        ob = _foreign_twin(b, "b")
+        res += [b == ob, ob == b]
+    return tuple(res)
 
 
 EXPORTERS = [
